@@ -448,6 +448,26 @@ def main(argv):
         else:
             undecided_aux.append((qn, names, path))
 
+    # ---- thorough tier: besides the proof (with a larger solver budget), every replayer of the property is run in
+    # bounded-search mode against the unchanged functions -- a dynamic cross-check of contracts and replayers: a failing
+    # input found while all obligations are discharged means an assumed contract or a replayer is wrong, and is reported
+    bounded_runs = []
+    if tier == 'thorough' and not only:
+        seen_rp = {}
+        for qn, rp in sorted(getattr(mod, 'REPLAYERS', {}).items()):
+            if rp in seen_rp:
+                continue
+            seen_rp[rp] = qn
+            r0 = next((r for r in results if r['qualname'].split('@')[0] == qn), None)
+            if r0 is None:
+                continue
+            func = dict(r0)
+            ob = {'name': 'thorough.bounded_cross_check', 'path': '', 'backend': 'none', 'model': None, 'detail': ''}
+            known_f = [f for f in finding_lines if f['obligation'].split('/')[0].split('@')[0] == qn]
+            path, reproduced = replay(prop, mod, func, ob, replay_dir, search=True)
+            bounded_runs.append({'replayer': rp, 'function': qn, 'failing_input_found': bool(reproduced), 'replay': path})
+            if reproduced and not known_f:
+                viol_lines.append('VIOLATION property=%s replay=%s obligation=%s/thorough.bounded_cross_check' % (prop, path, qn))
     known_replays = {}
     for fid, (r, o) in known_first.items():
         path, reproduced = replay(prop, mod, r, o, replay_dir)
@@ -486,7 +506,10 @@ def main(argv):
             'baseline_missing_names': shrink,
             'known_findings': [dict(f, hits=len(known_hits.get(f['id'], [])), **known_replays.get(f['id'], {})) for f in finding_lines],
             'fixed': fixed_lines,
-            'bounded': getattr(mod, 'BOUNDED', []),
+            'bounded': list(getattr(mod, 'BOUNDED', [])) + [
+                'thorough tier: %s run in bounded-search mode on the real code (%s): %s' % (
+                    b['replayer'], b['function'], 'failing input found' if b['failing_input_found'] else 'nothing found')
+                for b in bounded_runs],
             'out_of_reach': getattr(mod, 'OUT_OF_REACH', []),
             'errors': ['%s: %s: %s' % (q, e[0], e[1][:300]) for q, e in errors],
         },
